@@ -108,3 +108,50 @@ package types
 //@   ensures empty: len(c.itemsAdd) == 0 && len(c.itemsDel) == 0
 //@   ensures wf:    acmeWF(c)
 //@ end
+
+// ---------------------------------------------------------------------------
+// C05 — backend collection: shards and the shards to rewrite
+
+//@ func CreateBackends
+//@   props C05
+//@   requires shardCount >= 0
+//@   modifies nothing
+//@   ensures fresh:   result != nil && fresh(result) && len(result.shards) == shardCount
+//@   ensures maps:    result.items != nil && result.itemsAdd != nil && result.itemsDel != nil && result.authBackends != nil && result.changedShards != nil
+//@   ensures empty:   len(result.items) == 0 && len(result.itemsAdd) == 0 && len(result.itemsDel) == 0 && len(result.changedShards) == 0
+//@   ensures noflags: forall k int :: !in(k, result.changedShards)
+//@   ensures freshmaps: fresh(result.items) && fresh(result.itemsAdd) && fresh(result.itemsDel) && fresh(result.changedShards) && fresh(result.authBackends) && (shardCount > 0 ==> fresh(result.shards))
+//@   ensures shards:  forall i int :: 0 <= i && i < shardCount ==> result.shards[i] != nil && len(result.shards[i]) == 0
+//@   loop 1 invariant built: 0 <= $idx(1) && $idx(1) <= len(shards) && len(shards) == shardCount && fresh(shards)
+//@       && forall i int :: 0 <= i && i < $idx(1) ==> shards[i] != nil && len(shards[i]) == 0
+//@ end
+
+// a full resync starts from an empty collection; every shard that held a
+// backend must be rewritten even if the new state puts nothing into it
+//@ func (*Backends).Clear
+//@   props C05
+//@   requires wf: forall i int :: 0 <= i && i < len(b.shards) ==> b.shards[i] != nil
+//@   modifies *b
+//@   ensures flag-nonempty: forall i int :: 0 <= i && i < len(old(b.shards)) && len(old(b.shards)[i]) > 0 ==> in(i, b.changedShards) && b.changedShards[i]
+//@   ensures del-is-old:    b.itemsDel == old(b.items)
+//@   ensures fresh-empty:   len(b.items) == 0 && len(b.itemsAdd) == 0 && len(b.shards) == len(old(b.shards))
+//@   ensures new-shards:    forall i int :: 0 <= i && i < len(b.shards) ==> b.shards[i] != nil && len(b.shards[i]) == 0
+//@   loop 1 invariant flags: 0 <= $idx(1) && $idx(1) <= len(nb.shards) && len(nb.shards) == len(b.shards) && nb != b && fresh(nb) && nb.changedShards != nil && fresh(nb.changedShards) && b.shards == old(b.shards) && b.items == old(b.items)
+//@       && forall i int :: 0 <= i && i < $idx(1) && len(b.shards[i]) > 0 ==> in(i, nb.changedShards) && nb.changedShards[i]
+//@   loop 1 invariant kept:  len(nb.items) == 0 && len(nb.itemsAdd) == 0 && (forall i int :: 0 <= i && i < len(nb.shards) ==> nb.shards[i] != nil && len(nb.shards[i]) == 0)
+//@ end
+
+//@ func (*Backends).Commit
+//@   props C05
+//@   modifies b.itemsAdd, b.itemsDel, b.changedShards
+//@   ensures clean: len(b.itemsAdd) == 0 && len(b.itemsDel) == 0 && forall k int :: !in(k, b.changedShards)
+//@ end
+
+// every flagged shard is reported
+//@ func (*Backends).ChangedShards
+//@   props C05
+//@   modifies nothing
+//@   ensures all: forall s int :: in(s, b.changedShards) && b.changedShards[s] ==> exists k int :: 0 <= k && k < len(result) && result[k] == s
+//@   loop 1 invariant own:  fresh(changed)
+//@   loop 1 invariant seen: forall s int :: $seen(1, s) && in(s, b.changedShards) && b.changedShards[s] ==> exists k int :: 0 <= k && k < len(changed) && changed[k] == s
+//@ end
